@@ -36,6 +36,27 @@ fn allocate_array(n: usize) {
     forget(heap); forget(twin);
 }
 
+/// Two allocations in a row: every created value gets its own cell and its own size increment, also when an equal
+/// (even empty) value was created before — one record per created array, in creation order.
+fn allocate_twice(n1: usize, n2: usize) {
+    let mut heap = Heap::from(Vec::with_capacity(3));
+    let s0 = heap.verif_size();
+    let (first, second) = (array_of(n1), array_of(n2));
+    let (size1, size2) = (first.size(), second.size());
+    let i1 = heap.allocate(first);
+    let s1 = heap.verif_size();
+    let i2 = heap.allocate(second);
+    let s2 = heap.verif_size();
+    witness!(i2.as_usize() == 1, "W: second allocation got the next index");
+    assert!(i1.as_usize() == 0 && i2.as_usize() == 1, "C16: consecutive allocations did not get consecutive indices (one cell per created value)");
+    assert!(s1 == s0 + size1 && s2 == s1 + size2 && s2 > s1 && s1 > s0, "C16: the cumulative size is not strictly increasing by each value's size");
+    assert!(heap.dereference(&HeapIndex::from(1usize)).is_ok() && heap.dereference(&HeapIndex::from(2usize)).is_err(),
+            "C16: two created values did not yield exactly two cells");
+    forget(heap);
+}
+
+harness!(heap_allocate_twice_empty, unwind = 4, { allocate_twice(0, 0) });
+harness!(heap_allocate_twice_mixed, unwind = 4, { allocate_twice(1, 0) });
 harness!(heap_allocate_array0, unwind = 4, { allocate_array(0) });
 harness!(heap_allocate_array2, unwind = 4, { allocate_array(2) });
 
